@@ -53,7 +53,7 @@ CHECKS = {
         "out-of-bounds RETURNDATACOPY/STOP) is assembled into one contract per node. Each node returns a fixed-layout record of what it observes "
         "(CALLER, ORIGIN, ADDRESS, CALLVALUE, storage, transient storage, balance, child success flags, RETURNDATASIZE and child records) and the root "
         "finally dumps storage/transient/balance/code of every account; the whole record must equal the reference EVM's for x in {0,1,balance,balance+1}. "
-        "Further families: callees whose outcome branches on the symbolic input with caller writes after the call, value-bearing self-calls, callees that return or revert with fewer bytes than the caller's pre-filled return window, two creations at the same address (same CREATE2 salt and init code that reverts iff it receives no value: a failed creation must leave no account behind, a successful one makes the second collide). Stuck paths and uncovered inputs are violations too.",
+        "Further families: callees whose outcome branches on the symbolic input with caller writes after the call, value-bearing self-calls, callees that return or revert with fewer bytes than the caller's pre-filled return window, static frames with each single effect (SSTORE, TSTORE or LOG alone must fail the frame), storage and transient-storage reads of the caller between a call and RETURNDATASIZE (the return-data buffer survives them), two creations at the same address (same CREATE2 salt and init code that reverts iff it receives no value: a failed creation must leave no account behind, a successful one makes the second collide). Stuck paths and uncovered inputs are violations too.",
         "Trusted: mc/refevm.py call/create semantics (Appendix B.1), mc/calltree.py generator. Created addresses are abstract (taken from halmos's trace, "
         "consistency checked through later reads).",
         "DESIGN.md §4 C09",
@@ -63,7 +63,7 @@ CHECKS = {
         "model_checking",
         "bounded-exhaustive enumeration of all programs of a statement grammar, each run once by the real SEVM.run; every reported path evaluated on every input of a colliding finite grid and compared with a reference EVM",
         "Every program of <= L statements (quick L=2 over a 122-statement alphabet: arithmetic, memory, storage/transient storage with hashed and "
-        "symbolic locations, keccak, logs, copies, branches incl. comparisons of a hash with itself plus a constant, symbolic-address EXTCODE*/BALANCE/CALL, terminators; thorough adds L=3 over a 39-statement alphabet) in both storage layouts is "
+        "symbolic locations, keccak, logs, copies, branches incl. comparisons of a hash with itself plus a constant, symbolic-address EXTCODE*/BALANCE/CALL, TSTORE inside a branch body, while / do-while loops on a symbolic bound (the paths reported under the loop bound must be exact; coverage is not demanded where halmos flags the bound), terminators; thorough adds L=3 over a 39-statement alphabet) in both storage layouts is "
         "executed symbolically once. For every input of the grid (x,y in 6 boundary values colliding with the grammar's constants, callvalue, caller, "
         "balances) and every reported non-stuck path whose constraints evaluate to true, the claimed error kind, return data (whole memory + probes "
         "of every touched slot) and logs must equal the reference EVM's run of the same bytecode. Each path is also evaluated under a valuation in which every initial storage/balance array that must read as zero holds a non-zero value: a path that is still satisfied reads such an array without its zero-initialisation axiom and must still agree with the EVM.",
@@ -90,7 +90,7 @@ CHECKS = {
         "bounded-exhaustive enumeration of (per-path outcome vector x solver reply vector x --early-exit x --cache-solver x completion order x reply-delivery order) for a generated k-path test, each executed by the real run_contract / _main with a scripted solver and compared with a reference verdict function",
         "A generated test with k <= 2 (thorough 3) guarded paths plus a default path; each path ends in success, revert, Panic(1), the DSTest fail flag or an unsupported opcode (stuck). The reply to each path's query is scripted from {sat + model, sat + model interpreting an abstraction followed by the refined query's reply, unsat (with an unsat core when the "
         "query names its assertions), unsat with an empty core, unknown, time limit expired, empty output, garbage, non-zero exit with sat, crash} (quick: 8 of them), with and without --early-exit and --cache-solver. Concurrent queries are completed in every order (--solver-threads = number of queries, delayed replies), and for single-query tests the done-callback of the solver future is additionally delayed (callbacks-last), and for tests with a stuck path the two orders `replies delivered "
-        "before / after the main thread confirms the stuck path` are both taken. The TestResult exit code must equal the reference verdict FAIL > ERROR > TIMEOUT > ERROR(stuck) > ERROR(all reverted) > PASS computed from the collection of outcomes alone; through _main (stub forge) the process exit code is non-zero iff the selected test did not pass.",
+        "before / after the main thread confirms the stuck path` are both taken. The TestResult exit code must equal the reference verdict FAIL > ERROR > TIMEOUT > ERROR(stuck) > ERROR(all reverted) > PASS computed from the collection of outcomes alone; through _main (stub forge) the process exit code is non-zero iff some selected test did not pass, also with a second contract in the project (processed before or after) whose only test passes, or whose setUp() reverts so that its test yields no result at all.",
         "Trusted: the reference verdict function (DESIGN B.3) and the scripted solver in props/c05_verdict.py (seam: halmos.solve.PopenFuture replaced in the harness process; the subprocess layer itself is C17's subject). Completion orders are produced with real solver threads and delays, not with a controlled scheduler.",
         "DESIGN.md §4 C05",
         "A",
@@ -116,7 +116,7 @@ CHECKS = {
         "of set_byte/set_word/set_slice (bytes, symbolic, overlapping self-slices, foreign ByteVecs), append, copy (both directions), and writes to "
         "sources and read results, run on fresh real ByteVec objects directly and through sevm.State.mslice/set_mslice/__deepcopy__. After every "
         "operation: length, chunk-shape invariant, whole content, byte/word/slice reads straddling every chunk boundary and the end, and the "
-        "aliasing oracle (copies, sources and read results never change).",
+        "aliasing oracle (copies, sources and read results never change; a read never hands out the vector object itself). A read through State.mslice past the end expands memory, a ByteVec.slice does not.",
         "Trusted: the flat-list reference in props/c07_bytevec.py; z3 substitute+simplify used only to ground extract/concat terms under one valuation "
         "with pairwise distinct symbolic bytes. Not claimed: random histories beyond the depth bound.",
         "DESIGN.md §4 C07",
@@ -126,7 +126,7 @@ CHECKS = {
         "model_checking",
         "bounded-exhaustive enumeration of loop / limit programs x --loop, --width, --depth values x placements (regular test, setUp, invariant target call, second contract with the same test signature) x solver replies for stuck paths, each run end to end by the real run_contract and compared with a brute force on a reference EVM",
         "Programs: `i = 0; while (i < n) i++; if (i == K) Panic(1)` in two loop shapes (exit on the taken branch / back edge on the taken branch), nested loops, concrete trip counts 0..6, a concrete loop containing a symbolic branch, a four-path test, a test whose failing path is long, a test with an unsupported opcode on one branch; "
-        "configurations --loop 1,2,3,6, --width 1,2,3, --depth 40,100, a scripted solver answering unknown / garbage for the stuck-path query. Placements: regular check_* tests, setUp() (concrete and fresh-symbol trip counts), target functions spin/spind(uint256) called during invariant testing at depth 1..3, two contracts "
+        "configurations --loop 1,2,3,6, --width 1,2,3, --depth 40,100, a scripted solver answering unknown / garbage for the stuck-path query. Placements: regular check_* tests, setUp() (concrete and fresh-symbol trip counts), target functions spin/spind(uint256) called during invariant testing at depth 1..3, a loop on the stored value inside the invariant body itself (run once per frontier state: a cut in any state must be reported, also when the state explored last has none), two contracts "
         "with the same test signature run in one process, two overloads of one test name in one contract, and a target function that stops at an unsupported opcode. Oracle per test: if the brute force on the reference EVM finds a failing input within the bounds and halmos reports PASS, a warning naming the limit must have been logged for that test (or bounded loops reported); tests with only concrete loop conditions must be FAIL and never "
         "carry a loop-bound warning; a path stopped at an unsupported opcode - in the test or in setUp(), at the top level or 1-3 call frames deep - must never leave the test a clean PASS; a symbolic setUp() loop of which exactly one successful path survives the cut must carry the loop-bound warning; in invariant mode the warning is demanded for every invariant test that relies on a cut frontier, whichever runs first.",
         "Trusted: mc/refevm.py, mc/invgen.py BFS, the program generators in props/c10_bounds.py, mc/solverstub.py. Warnings are read from the halmos loggers (rebinding of handlers in the harness process).",
@@ -148,7 +148,7 @@ CHECKS = {
         "exploration",
         "exhaustive sweep over ABI type trees x length-candidate configurations; halmos's calldata is flattened to per-byte atoms and decoded by an independent ABI decoder for every choice of candidate lengths; a reader program on the real SEVM must explore exactly the product of the candidate lists",
         "Every signature with 1-3 parameters over ABI type trees (base types uint256, uint8, int128, address, bool, bytes4, bytes32, bytes, string; T[], T[1], T[2], tuples; nesting <= 3) x 8 configurations "
-        "(--default-array-lengths / --default-bytes-lengths / --array-lengths incl. unordered lists and per-name overrides; named parameters and the unnamed ones solc emits as "") is built by halmos.calldata.mk_calldata. The result is flattened to (constant byte | byte k of symbol s) atoms "
+        "(--default-array-lengths / --default-bytes-lengths / --array-lengths incl. unordered lists and per-name overrides; named parameters and the unnamed ones solc emits as "") is turned into an ABI table by halmos.calldata.get_abi (as for a compiled artefact; multi-dimensional arrays of tuples included) and built by halmos.calldata.mk_calldata. The result is flattened to (constant byte | byte k of symbol s) atoms "
         "and, for every combination of candidate lengths, decoded by an ABI decoder written from the specification: offsets concrete and in range, every leaf a whole, distinct, otherwise unused symbol, leaf regions disjoint, every size "
         "symbol heading exactly one length word. The candidate lists halmos derives are compared with an independent reading of the configuration. A generated reader program (CALLDATALOAD of every length word) is run on the real SEVM, also with a second symbolic calldata registered on the same path and with the calldata created on a parent path that the executing path extends: the returned length tuples must be "
         "exactly the product of the candidate lists. Unsupported types (fixedMxN, ufixed, function) must raise.",
@@ -171,7 +171,7 @@ CHECKS = {
     "C14": (
         "model_checking",
         "bounded-exhaustive enumeration of prank-family operation sequences, state-cheatcode cases and fresh-symbol requests (all widths), each run by the real SEVM.run and compared for every input / tape value with a reference EVM carrying Foundry's cheatcode state machine",
-        "Prank: every sequence of length <= 3 (thorough 4) over prank(a), prank(a,o), startPrank(a), startPrank(a,o), stopPrank(), prank(x) with a symbolic address, CALL/STATICCALL to an observer that calls a second observer, CREATE of an observer, an intervening cheatcode call, a helper frame issuing its own prank and a call to an observer that returns on two paths (so that the pranking frame resumes twice); "
+        "Prank: every sequence of length <= 3 (thorough 4) over prank(a), prank(a,o), startPrank(a), startPrank(a,o), stopPrank(), prank(x) with a symbolic address, CALL/STATICCALL to an observer that calls a second observer, CREATE of an observer, an intervening cheatcode call, a call to an account without code (it uses up a one-shot prank), a helper frame issuing its own prank and a call to an observer that returns on two paths (so that the pranking frame resumes twice); "
         " every observed (msg.sender, tx.origin) pair - in the callee, in the callee's callee and in constructors - must equal the reference state machine, and halmos may stop with an internal error only where Foundry rejects the sequence (prank over an active prank). State: deal, store/load, etch, warp, roll, fee, chainId, "
         "coinbase, difficulty with concrete and symbolic arguments, issued from the root or a nested frame, then every relevant opcode read in the same and in another frame on the targeted and on another account; a block value set before a fork and again, differently, on each side; store/deal followed by (re-)etching and reads; vm.addr over valid secp256k1 keys (equal keys equal addresses, different keys different ones, the real address of a concrete key); deal/store/load also through a fresh symbolic address that vm.assume pins to an existing account. Fresh symbols: createUint/createInt/randomUint/randomInt for bit widths 1..256 (quick: 17 boundary widths), "
         "bytes/string sizes {0,1,31,32,33,65}, all fixed-type creators, min/max pairs over boundary words: symbol width, zero/sign extension, range constraints, ABI layout and pairwise independence checked against an input-tape reference for every tape value of a grid.",
@@ -182,7 +182,7 @@ CHECKS = {
     "C15": (
         "model_checking",
         "bounded-exhaustive enumeration of generated invariant-testing projects (target function sets x invariants x depth 0..3 x filter combinations), each run end to end by the real run_contract; verdicts, cached frontier states and explored calls compared with a breadth-first search over all call sequences on a reference EVM",
-        "Projects: a test contract whose setUp() CREATEs 1-2 targets built from {inc, dec, set(uint8), rng(uint8), setb(uint8), step, pay, tick, own, bad, dbl} plus {setw, eq5, fwd} (a stored word compared with a constant by one function and forwarded into a nested call by another) (all subsets of size <= 2, selected / thorough all triples), invariants s != c, s <= 1, t <= 1, t <= block.timestamp (time never runs backwards along a sequence), --invariant-depth 0..3, and for a two-target project every "
+        "Projects: a test contract whose setUp() CREATEs 1-2 targets built from {inc, dec, set(uint8), rng(uint8), setb(uint8), step, pay, tick, own, bad, dbl} plus target functions whose names are reserved in the test contract only (check_in(), invariant_x(), setUp(), afterInvariant(), prove_it()) plus {setw, eq5, fwd} (a stored word compared with a constant by one function and forwarded into a nested call by another) (all subsets of size <= 2, selected / thorough all triples), invariants s != c, s <= 1, t <= 1, t <= block.timestamp (time never runs backwards along a sequence), --invariant-depth 0..3, and for a two-target project every "
         "combination (quick: up to two kinds at a time) of targetSenders/excludeSenders/targetContracts/excludeContracts/targetSelectors (incl. several entries for one address)/excludeSelectors. The reference runs the same bytecode on mc/refevm.py: BFS over all sequences of admitted calls with arguments, senders, "
         "msg.value and timestamp increments from small domains that are complete for this grammar. Oracles: an invariant broken by a sequence of <= d calls <=> halmos FAIL at depth d; every target state reached by the reference in k calls is an instance of a cached frontier state of depth <= k (storage terms and path "
         "conditions grounded over a finite assignment domain), so over-merging, an off-by-one in the depth loop or a dropped target shows up as an unrepresented state; every call recorded in the frontier call sequences is admitted by Foundry's filter rules; a reachable assertion failure inside a target must be reported and fail; every counterexample marked valid is turned back into a concrete call sequence (calldata, senders, values and the timeline from the model) and replayed on the reference EVM, where every call must succeed and the invariant must then fail.",
@@ -205,9 +205,9 @@ CHECKS = {
         "model_checking",
         "stateless, deviation/preemption-bounded exploration (CHESS style) of the real halmos/processes.py and solve.solve_low_level under a cooperative scheduler with simulated subprocesses; invariants evaluated on every complete schedule",
         "halmos/processes.py runs unmodified: threading.{Thread,Lock,RLock,Event,Condition}, concurrent.futures' Condition, the thread pool that shutdown(wait=False) uses, Popen, psutil and time are scheduler-owned shims (module attributes rebound in "
-        "the harness process); scheduling points are every shim operation plus every source line of the racy functions of processes.py (sys.settrace). Process exit, communicate()-timeout expiry, spawn failure and a process ignoring SIGTERM (the grace wait then raises psutil.TimeoutExpired and only kill() ends it) are environment choices. For 11 harnesses "
+        "the harness process); scheduling points are every shim operation plus every source line of the racy functions of processes.py (sys.settrace). Process exit, communicate()-timeout expiry, spawn failure and a process ignoring SIGTERM (the grace wait then raises psutil.TimeoutExpired and only kill() ends it) are environment choices. For 13 harnesses "
         "(submit racing shutdown(wait=False|True), two jobs with a graceful shutdown and an independent waiter, a job with a time limit, submit after shutdown, graceful then forceful shutdown (directly and through ExecutorRegistry.shutdown_all), two submitters, spawn failure, solve_low_level with 5 s / 300 ms / no limit "
-        "and with a concurrent early-exit shutdown) every schedule with <= 1 deviation (<= 2 for the two submit-vs-shutdown races; thorough: <= 2 for all small harnesses) from the default schedule is executed to completion. Invariants per execution: no deadlock or livelock, no uncaught exception, "
+        "and with a concurrent early-exit shutdown, solve_end_to_end on a query whose first reply is sat with an abstract model so that a second, refined job is issued - alone and racing a shutdown) every schedule with <= 1 deviation (<= 2 for the two submit-vs-shutdown races; thorough: <= 2 for all small harnesses) from the default schedule is executed to completion. Invariants per execution: no deadlock or livelock, no uncaught exception, "
         "every accepted future completes and its waiters get the process output, a job whose limit expired surfaces as TimeoutExpired / `unknown` and never as a result, the limit handed to the process layer is the configured one, once shutdown() has returned "
         "nobody is still or newly waiting on a live process, submit after shutdown is refused, no process is alive at the end. A free-running pass with real threads and real echo/sleep/sh subprocesses checks the simulated protocol.",
         "Trusted: mc/sched.py (scheduler, shims, simulated Popen/psutil semantics incl. EBADF when cancel() closes the pipes under communicate()). Memory-model effects below Python statement granularity and real signal delivery latencies are not modelled. "
@@ -231,8 +231,8 @@ CHECKS = {
         "exploration",
         "exhaustive enumeration of all byte strings up to a length bound x symbolic-region placements, each compared with a reference decoder; exhaustive jump programs through SEVM.run",
         "Complete sweep (exhaustive: true) of every code string over an 8-letter alphabet that has one representative per decoding class "
-        "(quick: length<=4 with every symbolic region; thorough: <=5 with every region and <=6 with every prefix/suffix split), in two code "
-        "representations. For each contract every observable of the decoder (len, valid_jumpdests, byte reads, decode_instruction at every pc, "
+        "(quick: length<=4 with every symbolic region; thorough: <=5 with every region and <=6 with every prefix/suffix split), in three code "
+        "representations (chunk list; one term or hex string; a window of a bigger buffer that was patched after the fact, as for immutables). For each contract every observable of the decoder (len, valid_jumpdests, byte reads, decode_instruction at every pc, "
         "slice on the whole (start,size) grid) is compared with an independent reference decoder, and every JUMP/JUMPI program over short "
         "bodies is executed by the real SEVM.run and compared with a reference interpreter; (EXT)CODECOPY programs that read across and past the end of their own code (offsets end-2..end+1, 0, 2^200; sizes 0..64; dirty and fresh memory; MSIZE and CODESIZE afterwards) and loops whose head is a JUMPDEST at pc 0 are compared with the reference EVM.",
         "Trusted: the 20-line reference decoder/interpreter in props/c19_decode.py; z3 substitute+simplify used only to ground extract/concat terms. "
@@ -243,8 +243,8 @@ CHECKS = {
     "C20": (
         "model_checking",
         "explicit-state exploration of test histories (every ordered subset / doubling of the tests of a generated contract, repeated runs in one process, three injective symbol-suffix generators), each executed by the real run_contract and compared test by test with the solo result and with a brute force on a reference EVM",
-        "One generated contract with fifteen tests chosen to expose leaks: a failing and a passing test, a test that writes the storage variable every other test reads, a test that computes keccak(p) at run time and a test that reads the constant slot keccak(p) written by setUp, two tests that re-read calldata after a branch (one can never "
-        "fail, one fails for exactly one input: sibling-path isolation), two invariant tests sharing the frontier cache, a test that TSTOREs and lets the target TLOAD the same slot (per-account transient storage), a pair reading the code size / code hash of a symbolic address created in setUp (alias candidates), and a pair for configuration layers (a test that needs three loop iterations under the contract-level annotation --loop 4, a test with the function-level annotation --loop 1). Histories: every test doubled, every ordered pair, selected (thorough: all) ordered triples, the full list in both orders; a subset again with reversed and multiplicative uid() generators and run twice in one process. "
+        "One generated contract with nineteen tests chosen to expose leaks: a failing and a passing test, a test that writes the storage variable every other test reads, a test that computes keccak(p) at run time and a test that reads the constant slot keccak(p) written by setUp, two tests that re-read calldata after a branch (one can never "
+        "fail, one fails for exactly one input: sibling-path isolation), two invariant tests sharing the frontier cache, a test that TSTOREs and lets the target TLOAD the same slot (per-account transient storage), a test of vm.addr distinctness without and with a branch before it, a test of the block seen by setUp() (which records the timestamp, then warps: every run of the process starts from the default block), a test comparing keccak(x) with keccak(x+1) after a non-concretising branch (each sibling path carries its own hash assumptions), a pair reading the code size / code hash of a symbolic address created in setUp (alias candidates), and a pair for configuration layers (a test that needs three loop iterations under the contract-level annotation --loop 4, a test with the function-level annotation --loop 1). Histories: every test doubled, every ordered pair, selected (thorough: all) ordered triples, the full list in both orders; a subset again with reversed and multiplicative uid() generators and run twice in one process. "
         "Oracle: the normalised result of every test in every history (exit code, path counts, number of counterexamples, validity flags, replay outcome of each valid counterexample on the reference EVM, bounded loops) equals its solo result; solo results agree with a brute force (PASS: no failing input; FAIL: expected input set; invariant verdicts at depth 2).",
         "Trusted: mc/refevm.py, mc/e2e.py, mc/invgen.py. Concrete model values are not compared across runs (a solver may return any model): their replay is. uid() is rebound in the harness process (seam).",
         "DESIGN.md §4 C20",
